@@ -1058,3 +1058,41 @@ def _binary_models(f, slf, args, kw):
     if f is _binascii.unhexlify:
         return unhexlify_model(args[0])
     return NO_MODEL
+
+
+# ------------------------------------------------------------------ urllib.parse.unquote
+import urllib.parse as _urlparse
+
+
+def _hexval(c):
+    return z3.If(z3.And(c >= 48, c <= 57), c - 48, z3.If(z3.And(c >= 97, c <= 102), c - 87,
+                 z3.If(z3.And(c >= 65, c <= 70), c - 55, -1)))
+
+
+def unquote_model(x):
+    """percent-decoding of a str; decoded bytes >= 0x80 (multi-byte UTF-8) are outside the model"""
+    x = x if isinstance(x, CStr) else CStr.of(x)
+    out = []
+    i = 0
+    c = x.c
+    while i < len(c):
+        if i + 2 < len(c) + 0 and i + 2 <= len(c) - 1 and E.branch(_cz(c[i]) == 37):
+            h, l = _hexval(_cz(c[i + 1])), _hexval(_cz(c[i + 2]))
+            if E.branch(z3.And(h >= 0, l >= 0)):
+                v = z3.simplify(h * 16 + l)
+                if not E.branch(v < 128):
+                    raise Unsupported('percent-decoding of non-ASCII bytes')
+                out.append(v if not z3.is_int_value(v) else v.as_long())
+                i += 3
+                continue
+        out.append(c[i])
+        i += 1
+    r = CStr(out)
+    return r.concrete_value() if r.is_concrete() else r
+
+
+@register
+def _url_models(f, slf, args, kw):
+    if f is _urlparse.unquote and len(args) == 1 and not kw:
+        return unquote_model(args[0])
+    return NO_MODEL
